@@ -316,6 +316,40 @@ Lemma guards_as_documented_lemma :
   f_guard (entry_facts EApplyConfig) = Some [(F_set_append_only_is_false, false)].
 Proof. repeat split; try reflexivity; eexists; try split; reflexivity. Qed.
 
+(* ------------------------------------------------------------------ checks of the extracted table *)
+Lemma guard_dominates_forget_lemma : dominates (entry_facts EForget) = true.
+Proof. vm_compute; reflexivity. Qed.
+
+Lemma guard_dominates_prune_lemma : dominates (entry_facts EPrune) = true.
+Proof. vm_compute; reflexivity. Qed.
+
+Lemma guard_dominates_repair_index_lemma : dominates (entry_facts ERepairIndex) = true.
+Proof. vm_compute; reflexivity. Qed.
+
+Lemma guard_dominates_repair_snapshots_lemma : dominates (entry_facts ERepairSnapshots) = true.
+Proof. vm_compute; reflexivity. Qed.
+
+Lemma guard_dominates_rewrite_lemma : dominates (entry_facts ERewrite) = true.
+Proof. vm_compute; reflexivity. Qed.
+
+Lemma guard_dominates_rewrite_trees_lemma : dominates (entry_facts ERewriteTrees) = true.
+Proof. vm_compute; reflexivity. Qed.
+
+Lemma guard_dominates_apply_config_lemma : dominates (entry_facts EApplyConfig) = true.
+Proof. vm_compute; reflexivity. Qed.
+
+Lemma guard_dominates_unguarded_entries_lemma :
+  forallb (fun e => dominates (entry_facts e))
+    [EBackup; EDeleteKey; EAddKey; ECopyInto; EMerge; ESaveSnapshots; EInitHot] = true.
+Proof. vm_compute; reflexivity. Qed.
+
+Lemma hotcold_entries_only_copy_lemma :
+  hotcold_shape (entry_facts ERepairHotcold) = true /\ hotcold_shape (entry_facts ERepairHotcoldPacks) = true.
+Proof. split; vm_compute; reflexivity. Qed.
+
+Lemma inventory_closed_lemma : inventory_closed_b = true.
+Proof. vm_compute; reflexivity. Qed.
+
 (* ------------------------------------------------------------------ examples (non-vacuity) *)
 Definition ex_hash (d : N) : id := (1000 + d)%N.
 
